@@ -98,6 +98,7 @@ def run(tier):
     units = {"movtoggle": (["opt 0 mov 1", "opt 0 mov 2"], True), "swaptoggle": (["opt 0 swap 0", "opt 0 swap 1"], True), "nobasetoggle": (["opt 0 nobase 0", "opt 0 nobase 1"], True),
              "alltoggle": (["opt 0 all 0", "opt 0 all 1"], True), "chunktoggle": (["chunk 0 8", "chunk 0 0"], True), "setoffs": (["setoff 0 5", "setoff 0 9"], False),
              "smallasm": (["setoff 0 0", "asm 0 %s" % common.hx("nop")], False), "smallcnt": (["setoff 0 0", "cnt 0 4 %s" % common.hx("mov rax, rbx")], False),
+             "asmcnt": (["setoff 0 0", "asm 0 %s" % common.hx("mov rax, 0x7fffffff"), "setoff 0 3", "cnt 0 4 %s" % common.hx("lea r15, [rax+rsp]")], False),
              "others": (["new 1 ext 64 H 0xcc", "del 1"], False), "failing": (["asm 0 %s" % common.hx("bogus")], False)}
     nstorm = 0
     for uname, (ucmds, ucfg) in sorted(units.items()):
